@@ -51,7 +51,11 @@ MAGS = ["5", "7.12", "1e-3", "0", "-2.5", "1000000", "3.0", "1e21", "0.1"]
 DATES = ["2020-01-02", "1999-12-31", "2020-01-02T03:04:05", "2020-01-02T03:04:05.678901", "2020-01-02T03:04:05+00:00",
          "2021-06-30T23:59:59-05:30"]
 
-text_values = st.one_of(st.sampled_from(TRICKY_STR), st.sampled_from(TRICKY_STR),
+# prose longer than one output line of the YAML writer, with runs of blanks and line-break-like characters inside
+long_text = st.lists(st.sampled_from(["Tensile", "test", "data", "of", "the", "annealed", "steel", "sample,", "batch", "7,", "run", "3.", "",
+                                      "See", "notebook", "x" * 40, "a:", "- b", "#c", "ü"]), min_size=10, max_size=40).map(" ".join).filter(
+    lambda s: s.strip() == s and s != "")
+text_values = st.one_of(st.sampled_from(TRICKY_STR), st.sampled_from(TRICKY_STR), long_text,
                         st.text(alphabet=st.characters(min_codepoint=32, max_codepoint=0x2FF, blacklist_characters="\x7f\x85\xa0"),
                                 min_size=1, max_size=12).filter(lambda s: s.strip() != ""))
 floats = st.one_of(st.sampled_from([0.0, -0.0, 1.5, 1e308, 5e-324, 0.1, 1e16, 1e22, 123456789.12345679, -1.0, 3.0, 1 / 3]),
